@@ -1,10 +1,17 @@
-"""C18 — see DESIGN.md §5. Shared machinery: checks/hist_common.py, checks/oracles.py."""
-from checks import hist_common
+"""C18 — see DESIGN.md §5. Shared machinery: checks/hist_common.py, checks/oracles.py.
+Cookie attributes and the browser's cookie identity (Model/Cookie.v,
+Properties/C18A.v, harness family cookieattr): checks/cookie_attr.py."""
+import json
+
+from checks import cookie_attr, hist_common
 
 
 def run(chk):
+    cookie_attr.stage(chk)
     return hist_common.run_property(chk, "C18")
 
 
 def replay(chk, path):
+    if "cookieattr" in json.load(open(path)):
+        return cookie_attr.replay(chk, path)
     return hist_common.replay_property(chk, "C18", path)
